@@ -143,6 +143,11 @@ def plan_jobs(prop, tier, rnd):
             want = [h for h in pools["T"] if donate_then(h)]
             if want:
                 assets["B1"] = rnd.choice(want)
+        if prop == "C20" and "V" in pools and i % 5 == 2:
+            # a sale whose value the exchange supplied (different from amount x price): the sheet shows the value rp2 computed with
+            sup = [h for h in pools["V"] if any(x["cls"] == "out" and x["vout"] >= 0 for x in h)]
+            if sup:
+                assets["B1"] = rnd.choice(sup)
         if prop == "C15" and i % 3 == 0 and "M" in pools:
             # holdings on every account of the alphabet: two holders, one of them on two exchanges (the other's account sorts in between)
             def spread(h):
